@@ -14,6 +14,8 @@ and cross-checked with its descriptors.
   the number every symbolic cell denotes -- computed here with ``rsatoolbox.rdm.compare`` on objects
   built from the original values by the specification's row / condition sequences -- must be the
   stored evaluation; likewise noise ceilings, dof and variances.
+* test-set routines (boot_testset.py) are further routines of the same protocol; ``perturb_testset`` adds the
+  perturbation replay of deps(theta) / deps(score).
 * I -> S  ``random_run``: a routine runs under a real seed, the events become a trace for
   ``Trace_EvalProtocol`` (similarities as integers x 1e6); variances, dof and the rerun clause are judged here.
 """
@@ -38,7 +40,16 @@ def public_name(rc):
         if rc['bootR'] and rc['bootP']:
             return 'eval_bootstrap'
         return 'eval_bootstrap_rdm' if rc['bootR'] else 'eval_bootstrap_pattern'
+    if rc['routine'] == 'testset':
+        if rc['bootR'] and rc['bootP']:
+            return 'bootstrap_testset'
+        return 'bootstrap_testset_rdm' if rc['bootR'] else 'bootstrap_testset_pattern'
     return PUBLIC[rc['routine']]
+
+
+def key_prefix(rc):
+    """violation keys of the test-set routines live under C04/testset/..."""
+    return 'testset/' if rc['routine'] == 'testset' else ''
 
 
 # ------------------------------------------------------------------ descriptors as functions of source ids
@@ -61,7 +72,7 @@ def dof_rule(rc, nr, nc):
     ur, up = n_units(rc, nr, nc)
     if rc['routine'] == 'fixed':
         return nr - 1
-    if rc['routine'] == 'crossval':
+    if rc['routine'] in ('crossval', 'testset'):
         return None
     if rc['bootR'] and rc['bootP']:
         return min(ur, up) - 1
@@ -85,7 +96,7 @@ def n_rep(rc):
 def n_folds(rc, nr):
     if rc['routine'] == 'fixed':
         return nr
-    return {'none': 1, 'kfold': rc['kR'] * rc['kP'], 'kfoldpat': rc['kP'], 'random': rc['nCv']}[rc['cv']]
+    return {'none': 1, 'testset': 1, 'kfold': rc['kR'] * rc['kP'], 'kfoldpat': rc['kP'], 'random': rc['nCv']}[rc['cv']]
 
 
 def keys(rc, nr):
@@ -106,7 +117,7 @@ def nc_keys(rc):
 
 
 def stores_nc(rc):
-    return not (rc['routine'] == 'boot' and not rc['bootNc'])
+    return not (rc['routine'] == 'boot' and not rc['bootNc']) and rc['routine'] != 'testset'
 
 
 def cell_value(rc, evaluations, key):
@@ -115,7 +126,7 @@ def cell_value(rc, evaluations, key):
     rt = rc['routine']
     if rt in ('fixed', 'crossval'):
         return e[0, j - 1, f - 1]
-    if rt == 'boot':
+    if rt in ('boot', 'testset'):
         return e[i - 1, j - 1]
     if rt == 'bootcv':
         return e[i - 1, j - 1, f - 1, r - 1]
@@ -127,7 +138,7 @@ def cell_value(rc, evaluations, key):
 def expected_shape(rc, nr):
     rt = rc['routine']
     M, F = rc['nM'], n_folds(rc, nr)
-    return {'fixed': (1, M, nr), 'crossval': (1, M, F), 'boot': (rc['N'], M), 'bootcv': (rc['N'], M, F, rc['nCv']),
+    return {'fixed': (1, M, nr), 'crossval': (1, M, F), 'boot': (rc['N'], M), 'testset': (rc['N'], M), 'bootcv': (rc['N'], M, F, rc['nCv']),
             'dual': (rc['N'], M, F, rc['nCv'], 3), 'dualrand': (rc['N'], M, rc['nCv'])}[rt]
 
 
@@ -156,7 +167,7 @@ def nc_value(rc, noise_ceiling, key):
 class World:
     """source data (NR x NC), models, and the value tables that make every object self-describing"""
 
-    def __init__(self, nr, nc, flavour, mode, seed, kinds, theta_supplied=True):
+    def __init__(self, nr, nc, flavour, mode, seed, kinds, theta_supplied=True, scale=None):
         import rsatoolbox
         from rsatoolbox.model import ModelFixed, ModelWeighted, ModelSelect, ModelInterpolate
         self.nr, self.nc, self.flavour, self.mode = nr, nc, flavour, mode
@@ -171,6 +182,8 @@ class World:
                 for j in range(i + 1, nc + 1):
                     self.values[(r, i, j)] = float(S.tok(r, i, j, set())) if mode == 'tok' \
                         else max(0.05, common[(i, j)] + 0.1 * float(rng.standard_normal()))
+        for k, fct in (scale or {}).items():      # perturbation replay: selected source entries altered
+            self.values[k] *= fct
         self.data = CVS.make_from_abs(self.abs, flavour, values=self.values)
         self.full = {}
         for r in range(1, nr + 1):
@@ -316,6 +329,10 @@ def do_fit(kind, mode, model, data, method, pattern_idx, pattern_descriptor, row
         return tok_theta(kind, rows, conds, method)
     fn = {'weighted': F.fit_regress if mode == 'regress' else F.fit_optimize,
           'select': F.fit_select, 'interp': F.fit_interpolate}[kind]
+    if len(set(conds)) < 3:
+        # a training object with fewer than 3 distinct conditions (possible in the test-set routines, whose
+        # threshold looks at the held-out part only) has at most one distinct dissimilarity: nothing to fit
+        return tok_theta(kind, rows, conds, method)
     return fn(model, data, method=method, pattern_idx=pattern_idx, pattern_descriptor=pattern_descriptor)
 
 
@@ -340,8 +357,9 @@ class RecFitter:
     """recording fitter (public extension point of the routines): logs the decoded training object and EVERY
     keyword argument it is called with; fits with exactly what it was given"""
 
-    def __init__(self, rec, j, kind, mode, method):
+    def __init__(self, rec, j, kind, mode, method, frozen=None):
         self.rec, self.j, self.kind, self.mode, self.method = rec, j, kind, mode, method
+        self.frozen = None if frozen is None else list(frozen)   # parameters to return call by call (perturbation replay)
 
     def __call__(self, model, data, *args, **kwargs):
         rec = self.rec
@@ -356,7 +374,10 @@ class RecFitter:
             pidx = [S.dec(pattern_descriptor, v) for v in pattern_idx]
         except Exception:
             pidx = [-1]
-        theta = do_fit(self.kind, self.mode, model, data, method, pattern_idx, pattern_descriptor, rows, conds)
+        if self.frozen is not None:
+            theta = self.frozen.pop(0)
+        else:
+            theta = do_fit(self.kind, self.mode, model, data, method, pattern_idx, pattern_descriptor, rows, conds)
         rec.on_fit({'j': self.j, 'rows': rows, 'conds': conds, 'pidx': pidx, 'n': rec.tick(), 'vok': ok,
                     'meth': str(method), 'desc': str(pattern_descriptor), 'kw': extra,
                     'theta': copy.deepcopy(theta)})
@@ -417,6 +438,24 @@ class _Rng:
 
 PATCHED = ('bootstrap_sample', 'bootstrap_sample_rdm', 'bootstrap_sample_pattern', 'sets_k_fold', 'sets_random',
            'crossval', 'compare', 'boot_noise_ceiling', 'cv_noise_ceiling')
+
+
+BT_PATCHED = ('bootstrap_sample', 'bootstrap_sample_rdm', 'bootstrap_sample_pattern', 'crossval')
+
+
+class TestsetResult:
+    """what bootstrap_testset* return (a tuple), with the attribute names of Result"""
+
+    def __init__(self, out, rc, method):
+        self.evaluations = np.asarray(out[0], dtype=float)
+        self.n_rdm = np.asarray(out[1]) if rc['bootR'] else None
+        self.n_pattern = np.asarray(out[-1]) if rc['bootP'] else None
+        self.noise_ceiling = self.variances = self.model_var = self.diff_var = self.noise_ceil_var = None
+        self.dof, self.cv_method, self.method = None, 'testset', method
+
+    def ntest(self, N):
+        return [[int(self.n_rdm[i]) if self.n_rdm is not None and i < len(self.n_rdm) else 0,
+                 int(self.n_pattern[i]) if self.n_pattern is not None and i < len(self.n_pattern) else 0] for i in range(N)]
 
 
 class Recorder:
@@ -589,11 +628,17 @@ class Recorder:
 
     def __enter__(self):
         from rsatoolbox.inference import evaluate as E
-        self.E = E
+        from rsatoolbox.inference import boot_testset as BT
+        self.E, self.BT = E, BT
         for name in PATCHED:
             self._orig[name] = getattr(E, name)
-        for name, f in self._wrap(E).items():
+        new = self._wrap(E)
+        for name, f in new.items():
             setattr(E, name, f)
+        # boot_testset.py binds its own names for the samplers and for crossval
+        self._orig_bt = {name: getattr(BT, name) for name in BT_PATCHED}
+        for name in BT_PATCHED:
+            setattr(BT, name, new[name])
         self.rng.__enter__()
         return self
 
@@ -601,14 +646,17 @@ class Recorder:
         self.rng.__exit__()
         for name, f in self._orig.items():
             setattr(self.E, name, f)
+        for name, f in self._orig_bt.items():
+            setattr(self.BT, name, f)
 
 
 # ------------------------------------------------------------------ calling the routines
-def fitters_for(rec, world, fitmode, method):
-    return [RecFitter(rec, j, kind, fitmode, method) for j, kind in enumerate(world.kinds, start=1)]
+def fitters_for(rec, world, fitmode, method, frozen=None):
+    return [RecFitter(rec, j, kind, fitmode, method, None if frozen is None else frozen[j - 1])
+            for j, kind in enumerate(world.kinds, start=1)]
 
 
-def call_routine(rec, world, rc, method, fitmode, use_correction=None):
+def call_routine(rec, world, rc, method, fitmode, use_correction=None, frozen=None):
     """call the public routine the configuration names; returns the Result"""
     from rsatoolbox.inference import crossvalsets as CV
     E = rec.E
@@ -632,6 +680,18 @@ def call_routine(rec, world, rc, method, fitmode, use_correction=None):
             res = E.eval_bootstrap_pattern(models, data, theta=world.theta, method=method, N=rc['N'],
                                            pattern_descriptor=rc['byP'], rdm_descriptor=rc['byR'],
                                            boot_noise_ceil=rc['bootNc'])
+    elif rt == 'testset':
+        BT = rec.BT
+        fit = fitters_for(rec, world, fitmode, method, frozen)
+        if rc['bootR'] and rc['bootP']:
+            out = BT.bootstrap_testset(models, data, method=method, fitter=fit, N=rc['N'],
+                                       pattern_descriptor=rc['byP'], rdm_descriptor=rc['byR'])
+        elif rc['bootR']:
+            out = BT.bootstrap_testset_rdm(models, data, method=method, fitter=fit, N=rc['N'], rdm_descriptor=rc['byR'])
+        else:
+            out = BT.bootstrap_testset_pattern(models, data, method=method, fitter=fit, N=rc['N'],
+                                               pattern_descriptor=rc['byP'])
+        res = TestsetResult(out, rc, method)
     elif rt == 'crossval':
         rec.events.append({'e': 'draw', 'd': [[], []]})
         fit = fitters_for(rec, world, fitmode, method)
@@ -737,7 +797,7 @@ def expected_variances(rc, res, nr, use_correction):
     ev = np.asarray(res.evaluations, dtype=float)
     rt = rc['routine']
     M = rc['nM']
-    if rt == 'crossval':
+    if rt in ('crossval', 'testset'):
         return None, 'no-claim'
     if rt == 'fixed':
         if nr < 2:
@@ -852,6 +912,12 @@ def _split_samples(events):
 
 
 def replay_behaviour(rec_json, const, flavour, mode, method, fitmode, seed, theta_supplied=True):
+    """Replay one TLC behaviour.  Returns (list of (key-suffix, detail), stats)."""
+    bad, stats = _replay_behaviour(rec_json, const, flavour, mode, method, fitmode, seed, theta_supplied)
+    return [(key_prefix(rec_json['rc']) + k, d) for k, d in bad], stats
+
+
+def _replay_behaviour(rec_json, const, flavour, mode, method, fitmode, seed, theta_supplied=True):
     """Replay one TLC behaviour.  Returns (list of (key-suffix, detail), stats)."""
     rc = rec_json['rc']
     nr, nc = const['NR'], const['NC']
@@ -999,7 +1065,11 @@ def replay_behaviour(rec_json, const, flavour, mode, method, fitmode, seed, thet
         want = sim(world, method, world.pred_ob(k[1], th, c['pred']['conds']),
                    world.data_ob(c['data']['rows'], c['data']['conds']))
         if not close(stored, want, 1e-9):
-            viol('a/value', {'key': k, 'stored': stored, 'denoted': want, 'cell': c})
+            first = cell_value(rc, ev, (k[0], 1) + tuple(k[2:]))
+            sub = 'a/value'
+            if rc['routine'] == 'testset' and k[1] > 1 and stored == first:
+                sub = 'a/value-of-first-model'       # every model's column holds the evaluation of model 1
+            viol(sub, {'key': k, 'stored': stored, 'denoted': want, 'cell': c})
     # ---- noise ceilings
     if stores_nc(rc):
         for k in nck:
@@ -1028,6 +1098,11 @@ def replay_behaviour(rec_json, const, flavour, mode, method, fitmode, seed, thet
             a = np.asarray(res.noise_ceiling, dtype=float)
             if a.ndim == 3 and not all(np.array_equal(a[:, :, 0], a[:, :, q], equal_nan=True) for q in range(a.shape[2])):
                 viol('d/ceiling-value', {'what': 'ceiling differs between the test sets of one sample'})
+    elif rc['routine'] == 'testset':
+        # no ceiling; the routines also return the number of held-out groups of every sample
+        want_n = [[a if rc['bootR'] else 0, b if rc['bootP'] else 0] for a, b in rec_json['ntest']]
+        if res.ntest(rc['N']) != want_n:
+            viol('n-test', {'returned': res.ntest(rc['N']), 'groups_not_drawn': want_n})
     else:
         n_spec = rec_json['nc'][0]
         want = nc_expected(world, method, n_spec)
@@ -1041,7 +1116,7 @@ def replay_behaviour(rec_json, const, flavour, mode, method, fitmode, seed, thet
     if rc['bootR'] and rc['bootP'] and n_units(rc, nr, nc)[1] < n_units(rc, nr, nc)[0]:
         stats['dofP_' + name] = 1       # the smaller factor is the condition axis
     want = rec_json['dof']
-    if rc['routine'] != 'crossval' and res.dof != want:
+    if rc['routine'] not in ('crossval', 'testset') and res.dof != want:
         cls = 'grouped-descriptor' if grouped(rc, nr, nc) else 'unique-descriptor'
         bad.append((f'e/dof/{cls}/{name}', {'stored': res.dof, 'units_minus_one': want, 'rc': rc,
                                              'n_rdm': nr, 'n_cond': nc, 'units': n_units(rc, nr, nc)}))
@@ -1051,6 +1126,64 @@ def replay_behaviour(rec_json, const, flavour, mode, method, fitmode, seed, thet
     if v is not None:
         viol(v[0], v[1])
     return bad, stats
+
+
+# ------------------------------------------------------------------ test-set routines: perturbation replay
+def perturb_testset(rec_json, const, flavour, method, seed):
+    """deps(theta) and deps(score) of the test-set routines, bit for bit, with the draws of the behaviour forced:
+    altering every source entry OUTSIDE the training object of sample i (in particular every held-out entry) must
+    leave the parameters fitted for sample i identical; altering every entry outside its TEST object (in
+    particular every drawn-only entry) must leave its scores identical when the parameters are held fixed."""
+    rc = rec_json['rc']
+    nr, nc = const['NR'], const['NC']
+    name = public_name(rc)
+    kk = keys(rc, nr)
+    cells = dict(zip(kk, rec_json['cells']))
+    draws, perms = forced_from_log(rc, rec_json['log'])
+    kinds = kinds_for(rc, True)
+
+    def run(scale=None, frozen=None):
+        world = World(nr, nc, flavour, 'rnd', seed, kinds, True, scale=scale)
+        with Recorder(world, rc, method, draws=draws, perms=perms) as rec:
+            res = call_routine(rec, world, rc, method, 'regress', frozen=frozen)
+        smp = _split_samples(rec.events)
+        th = [[x['theta'] for x in (s_['reps'][0]['fit'][0] if s_['reps'] else [])] for s_ in smp]
+        return world, th, np.asarray(res.evaluations, dtype=float)
+    try:
+        world, th0, ev0 = run()
+    except Exception as ex:
+        return [(f'testset/raises/{type(ex).__name__}/{name}', {'error': str(ex)})], 0
+    bad, n = [], 0
+    rng = np.random.default_rng(seed + 17)
+    frozen = [[t[j] for t in th0 if t] for j in range(rc['nM'])]
+    for i in range(1, rc['N'] + 1):
+        c = cells[(i, 1, 1, 1, 1)]
+        if c['nan'] == 1:
+            continue
+        t = c['pred']['theta']
+        tr_r, tr_c = set(t['rows']), set(t['conds'])
+        te_r, te_c = set(c['data']['rows']), set(c['data']['conds'])
+        out_train = {k: float(rng.uniform(1.3, 2.5)) for k in world.values
+                     if not (k[0] in tr_r and k[1] in tr_c and k[2] in tr_c)}
+        out_test = {k: float(rng.uniform(1.3, 2.5)) for k in world.values
+                    if not (k[0] in te_r and k[1] in te_c and k[2] in te_c)}
+        if out_train:
+            _, th1, _ = run(scale=out_train)
+            n += 1
+            same = len(th1) == len(th0) and len(th1[i - 1]) == len(th0[i - 1]) and all(
+                np.array_equal(np.asarray(a), np.asarray(b)) for a, b in zip(th0[i - 1], th1[i - 1]))
+            if not same:
+                bad.append((f'testset/deps/theta-depends-on-held-out-data/{name}',
+                            {'sample': i, 'theta': th0[i - 1], 'theta_after_altering_entries_outside_the_sample': th1[i - 1],
+                             'training_rows': sorted(tr_r), 'training_conds': sorted(tr_c)}))
+        if out_test:
+            _, _, ev1 = run(scale=out_test, frozen=[list(f) for f in frozen])
+            n += 1
+            if ev1.shape != ev0.shape or not np.array_equal(ev0[i - 1], ev1[i - 1], equal_nan=True):
+                bad.append((f'testset/deps/score-depends-on-drawn-data/{name}',
+                            {'sample': i, 'scores': ev0[i - 1], 'scores_after_altering_entries_outside_the_test_set': ev1[i - 1],
+                             'test_rows': sorted(te_r), 'test_conds': sorted(te_c)}))
+    return bad, n
 
 
 # ------------------------------------------------------------------ I -> S
@@ -1096,7 +1229,8 @@ def trace_of(rc, rec, res, nr, method):
         for k in nc_keys(rc):
             st = nc_value(rc, res.noise_ceiling, k)
             ncl.append([NANVAL, NANVAL] if st is None else ints(st))
-    tr.append({'e': 'result', 'cells': cells, 'nc': ncl, 'dof': int(res.dof) if res.dof is not None else -1})
+    tr.append({'e': 'result', 'cells': cells, 'nc': ncl, 'dof': int(res.dof) if res.dof is not None else -1,
+               'ntest': res.ntest(rc['N']) if rc['routine'] == 'testset' else []})
     return tr
 
 
@@ -1110,7 +1244,11 @@ def same_result(a, b):
         elif x is not None and not np.array_equal(np.asarray(x), np.asarray(y), equal_nan=True):
             diffs.append(f)
     for f in ('dof', 'n_rdm', 'n_pattern', 'cv_method', 'method'):
-        if getattr(a, f) != getattr(b, f):
+        x, y = getattr(a, f), getattr(b, f)
+        if isinstance(x, np.ndarray) or isinstance(y, np.ndarray):
+            if not np.array_equal(np.asarray(x), np.asarray(y)):
+                diffs.append(f)
+        elif x != y:
             diffs.append(f)
     return diffs
 
@@ -1125,6 +1263,13 @@ def run_once(rc, const, flavour, mode, method, fitmode, seed, theta_supplied, us
 
 
 def random_run(rc, const, flavour, mode, method, fitmode, seed, theta_supplied=True, rerun=True):
+    """run a routine under a real seed; returns dict(trace, bad, stats)"""
+    out = _random_run(rc, const, flavour, mode, method, fitmode, seed, theta_supplied, rerun)
+    out['bad'] = [(key_prefix(rc) + k, d) for k, d in out['bad']]
+    return out
+
+
+def _random_run(rc, const, flavour, mode, method, fitmode, seed, theta_supplied=True, rerun=True):
     """run a routine under a real seed; returns dict(trace, bad, stats)"""
     nr, nc = const['NR'], const['NC']
     name = public_name(rc)
@@ -1205,7 +1350,7 @@ def random_run(rc, const, flavour, mode, method, fitmode, seed, theta_supplied=T
     if v is not None:
         bad.append((f'{v[0]}/{name}', {**v[1], 'rc': rc, 'np_seed': np_seed}))
     # ceilings without bootstrap: those of the data
-    if not stores_nc(rc):
+    if not stores_nc(rc) and rc['routine'] != 'testset':
         want_nc = loo_value(world, method, list(range(1, nr + 1)), list(range(1, nc + 1)), rc['byR'])
         a = np.asarray(res.noise_ceiling, dtype=float)
         if a.shape != (2,) or not close(a, want_nc):
